@@ -9,6 +9,7 @@ run (model_cfg), so the model follows the tree: with the defective form in the s
 is compared, with the repaired form the repaired model.  VERIF_C07_CFG="(mkxcfg b b b)" overrides (experiments only)."""
 import copy, json, os, re, struct
 from vlib import *
+from props.kernelcommon import kernel_tie_leg
 import vlib
 from props import c13 as C13, c14 as C14, gdscommon as G
 
@@ -215,7 +216,7 @@ def gen_case(rng, kind, dist):
     for ci in range(ncell):
         name = rng.choice(["c%d", "Cell_%d", "x%d"]) % ci
         c = {"name": name, "layout": None, "abs": None}
-        has_layout = rng.random() < (0.85 if kind != "abstract" else 0.4)
+        has_layout = rng.random() < (0.85 if kind not in ("abstract", "abs_slot") else 0.4)
         pl = Placer(rng, overlap=(kind == "overlap"))
         if has_layout:
             lower = [x for x in range(ncell) if rank[x] < rank[ci]]
@@ -248,6 +249,19 @@ def gen_case(rng, kind, dist):
             dist["abstract_exported" if not has_layout else "abstract_shadowed"] = dist.get("abstract_exported" if not has_layout else "abstract_shadowed", 0) + 1
         cells.append(c)
     units = rng.choice(["Micro", "Nano", "Angstrom", "Pico"])
+    if kind == "abs_slot":
+        # (builder-c07a) a table that already has a layer numbered 32767, the number export_abstract reserves for the outline:
+        # with the purpose number 32767 registered (as Other or as Drawing) or not; sometimes a port sits on that layer
+        v = rng.randrange(4)
+        pairs = [[[32767, {"Other": 32767}]], [[0, "Drawing"], [1, "Label"], [2, "Pin"]],
+                 [[32767, "Drawing"], [1, "Label"], [2, "Pin"]], [[3, "Label"], [32767, {"Other": 32767}], [0, "Pin"], [5, "Drawing"]]][v]
+        layers.append({"num": 32767, "name": rng.choice([None, "outl"]), "pairs": pairs})
+        dist["abs_slot_table_%d" % v] = dist.get("abs_slot_table_%d" % v, 0) + 1
+        if v != 0 and rng.random() < 0.3:
+            for c in cells:
+                if c["abs"] and not c["layout"] and c["abs"]["ports"]:
+                    c["abs"]["ports"][0]["shapes"].append([3, [shift(gen_shape(rng, dist), 2000, 2000)]])
+                    break
     lib = {"name": rng.choice(["lib", "MyLib", "l"]), "units": units, "layers": layers, "cells": cells}
     lays = [c["layout"] for c in cells if c["layout"]]
     allelems = [e for l in lays for e in l["elems"]]
@@ -328,9 +342,49 @@ def directed_cases():
             insts.append({"name": "i", "cell": 0, "loc": [len(insts) * 7 - 20, -3], "reflect": refl, "angle": None if a is None else f2b(a)})
     lib["lib"]["cells"].append({"name": "top", "abs": None, "layout": {"name": "top", "insts": insts, "elems": [], "annots": []}})
     out.append(lib)
+    out += directed_abstract_cases()
     return out
 
-KINDS = [("plain", 62), ("abstract", 8), ("overlap", 8), ("nolabel", 2), ("bigcoord", 3), ("i32edge", 3), ("badname", 2), ("noview", 1),
+def directed_abstract_cases():
+    """(builder-c07a) abstract-only cells: the image on re-import, the outline slot of the layer table, and the inputs on which
+    export_abstract fails (C07_abstract_empty_outline_panics, C07_abstract_port_needs_purposes)"""
+    L3 = [{"num": 5, "name": None, "pairs": [[0, "Drawing"], [1, "Label"], [2, "Pin"]]},
+          {"num": 7, "name": "m2", "pairs": [[3, "Label"], [4, "Drawing"], [9, "Pin"]]}]
+    U = [[50, 0], [50, 10], [52, 10], [52, 2], [58, 2], [58, 10], [60, 10], [60, 0]]
+    def ab(name="macro", outline=None, ports=None, blockages=None):
+        return {"name": name, "outline": [[0, 0], [70, 0], [70, 30], [0, 30]] if outline is None else outline,
+                "ports": [{"net": "VDD", "shapes": [[1, [{"G": U}]], [0, [{"R": [[10, 6], [2, 2]]}, {"P": [[[20, 5], [30, 5], [30, 15]], 3]}]]]},
+                          {"net": "a", "shapes": [[0, [{"R": [[40, 20], [44, 28]]}]]]}] if ports is None else ports,
+                "blockages": [[0, [{"R": [[0, 0], [70, 1]]}]]] if blockages is None else blockages}
+    def lib(cells, layers=None, kind="directed_abstract"):
+        return {"op": "rt", "kind": kind, "lib": {"name": "lib", "units": "Nano", "layers": copy.deepcopy(L3 if layers is None else layers), "cells": cells}}
+    top = {"name": "top", "abs": None, "layout": {"name": "top", "annots": [], "elems": [{"net": "Net", "layer": 0, "purpose": "Drawing", "shape": {"R": [[0, 0], [5, 5]]}}],
+                                                   "insts": [{"name": "i0", "cell": 0, "loc": [100, -50], "reflect": True, "angle": f2b(90.0)}]}}
+    both = {"name": "both", "abs": ab("both"), "layout": {"name": "both", "insts": [], "annots": [], "elems": [{"net": None, "layer": 1, "purpose": "Drawing", "shape": {"R": [[1, 1], [2, 3]]}}]}}
+    out = []
+    # the library of Example C07_roundtrip_abstract_nonvacuous
+    out.append(lib([{"name": "macro", "abs": ab(), "layout": None}, top, both]))
+    out.append(lib([{"name": "macro", "abs": ab(ports=[], blockages=[]), "layout": None}]))
+    out.append(lib([{"name": "macro", "abs": ab(outline=[[0, 0], [9, 0], [12, 7], [3, 30], [-4, 8]]), "layout": None}, {"name": "m2", "abs": ab("m2", ports=[]), "layout": None}]))
+    # the outline slot: a table that already has a layer numbered 32767
+    for pairs in ([[32767, {"Other": 32767}]], [[0, "Drawing"], [1, "Label"], [2, "Pin"]], [[32767, "Pin"], [1, "Label"]], []):
+        out.append(lib([{"name": "macro", "abs": ab(), "layout": None}, top], layers=L3 + [{"num": 32767, "name": None, "pairs": pairs}], kind="directed_abstract_slot"))
+        out.append(lib([top_only()], layers=L3 + [{"num": 32767, "name": None, "pairs": pairs}], kind="directed_abstract_slot"))
+    # failures of export_abstract (outside the input space)
+    out.append(lib([{"name": "macro", "abs": ab(outline=[]), "layout": None}], kind="directed_abstract_fail"))
+    out.append(lib([{"name": "macro", "abs": ab(outline=[], ports=[]), "layout": None}], kind="directed_abstract_fail"))
+    nopin = [{"num": 5, "name": None, "pairs": [[0, "Drawing"], [1, "Label"]]}]
+    out.append(lib([{"name": "macro", "abs": ab(ports=[{"net": "p", "shapes": [[0, []]]}]), "layout": None}], layers=nopin, kind="directed_abstract_fail"))
+    out.append(lib([{"name": "macro", "abs": ab(ports=[{"net": "p", "shapes": [[0, [{"R": [[1, 1], [3, 3]]}]]]}]), "layout": None}], layers=nopin, kind="directed_abstract_fail"))
+    out.append(lib([{"name": "macro", "abs": ab(ports=[{"net": "p", "shapes": [[0, [{"R": [[1, 1], [3, 3]]}]]]}]), "layout": None}],
+                   layers=[{"num": 5, "name": None, "pairs": [[0, "Drawing"], [2, "Pin"]]}], kind="directed_abstract_fail"))
+    out.append(lib([{"name": "macro", "abs": ab(ports=[{"net": "p", "shapes": [[7, [{"R": [[1, 1], [3, 3]]}]]]}]), "layout": None}], kind="directed_abstract_fail"))
+    return out
+
+def top_only():
+    return {"name": "t", "abs": None, "layout": {"name": "t", "annots": [], "insts": [], "elems": [{"net": "n", "layer": 0, "purpose": "Pin", "shape": {"R": [[0, 0], [5, 5]]}}]}}
+
+KINDS = [("plain", 58), ("abstract", 8), ("abs_slot", 4), ("overlap", 8), ("nolabel", 2), ("bigcoord", 3), ("i32edge", 3), ("badname", 2), ("noview", 1),
          ("dupname", 1), ("degenerate", 3), ("nonmanhattan", 2), ("badkey", 1), ("nopurpose", 2), ("sliver", 2)]
 
 def grid_cases(chk, npoly, per=10):
@@ -369,6 +423,11 @@ def gen_cases(chk):
 HDR = ("From Coq Require Import ZArith List String.\nImport ListNotations.\n"
        "From L21 Require Import Base.Outcome Base.Hex Raw.RawData Raw.RawGdsExport Raw.RawGdsExportSpec Raw.RawGdsExportCheck.\n"
        "From L21 Require Gds.GdsData.\nOpen Scope Z_scope.\n")
+
+HDR_ABS = ("From Coq Require Import ZArith List String.\nImport ListNotations.\n"
+           "From L21 Require Import Base.Outcome Base.Hex Raw.RawData Raw.RawGdsExport Raw.RawGdsExportSpec Raw.RawGdsExportCheck "
+           "Raw.RawGdsAbstractSpec Raw.RawGdsAbstractCheck.\n"
+           "From L21 Require Gds.GdsData.\nOpen Scope Z_scope.\n")
 
 def q_gds(term):
     """qualify the constructors of Gds/GdsData.v in a term written by gdscommon.to_coq"""
@@ -428,6 +487,26 @@ def evaluate(chk, cfg, cases, tag):
     codes = coq_eval_lists(HDR, items, chk.rundir, tag, shard=40)
     for i, s in zip(idx, codes):
         out[i] = (parse_z(s), res[i])
+    return out
+
+def has_abstract_only(c):
+    return any(cell["abs"] and not cell["layout"] for cell in c["lib"]["cells"])
+
+def evaluate_abstract(chk, cases, results, tag="c07abs"):
+    """(builder-c07a) the content oracle for abstract-only cells and the layer table after the round trip
+    (Raw/RawGdsAbstractCheck.v c07_abstract_check), decided on the implementation's output:
+    0 = judged, holds, abstract-only cell present; 1 = judged, holds, no abstract-only cell; 2 = fails; 10 = not judged; None = not evaluated"""
+    items, idx = [], []
+    out = [None] * len(cases)
+    for i, (c, (v, r)) in enumerate(zip(cases, results)):
+        if v < 0 or c.get("kind") == "grid_polygons":
+            continue
+        if not isinstance(r.get("gds"), dict) or "structs" not in r["gds"] or not isinstance(r.get("raw"), dict) or "cells" not in r["raw"]:
+            continue
+        items.append(capp("c07_abstract_check", C14.clib(c["lib"]), c_gres(r["gds"]), c_rres(r.get("raw")))); idx.append(i)
+    codes = coq_eval_lists(HDR_ABS, items, chk.rundir, tag, shard=40)
+    for i, s in zip(idx, codes):
+        out[i] = parse_z(s)
     return out
 
 # ------------------------------------------------------------------ classification, shrinking
@@ -541,8 +620,11 @@ def nontrivial(c):
     return any((cell["layout"] and (cell["layout"]["elems"] or cell["layout"]["insts"])) or (not cell["layout"] and cell["abs"]) for cell in c["lib"]["cells"])
 
 def run(chk, replay=None):
-    targets = ["Raw/RawGdsExportCheck.vo"]
-    chk.proof_leg(targets, "Properties/C07.v", ["Raw/RawGdsExport_proofs.v", "Raw/RawGdsRoundtrip_proofs.v", "Raw/RawGdsBridge_proofs.v", "Raw/RawGdsLibrary_proofs.v", "Raw/RawGdsNoPanic_proofs.v"], "Properties.C07")
+    targets = ["Raw/RawGdsExportCheck.vo", "Raw/RawGdsAbstractCheck.vo"]
+    chk.proof_leg(targets, "Properties/C07.v", ["Raw/RawGdsExport_proofs.v", "Raw/RawGdsRoundtrip_proofs.v", "Raw/RawGdsBridge_proofs.v", "Raw/RawGdsLibrary_proofs.v", "Raw/RawGdsNoPanic_proofs.v",
+                                                "Raw/RawGdsAbstract_proofs.v"], "Properties.C07")
+    kernel_tie_leg(chk, "transform")
+    kernel_tie_leg(chk, "raw")
     chk.assumptions += [
         "Ptr<Cell> targets are indices into the library's own cell list (libraries closed under instantiation); locks not modelled",
         "LayerKey = slot index (no layer is ever removed); Layer.purps/nums are derived from the sequence of add_purpose calls",
@@ -550,7 +632,8 @@ def run(chk, replay=None):
         "the dates of the exported GdsLibrary (time of the call) are compared as zeros",
         "import_units: `(x - c).abs() < eps` is decided on exact dyadic values; rounding of the subtraction cannot change the answer (Sterbenz inside [c/2, 2c], |x - c| >= c/2 >> eps outside)",
         "polygons: the run decides `inside` by the closed even-odd region of Geom/ContainsSpec.v (exact integer arithmetic); the theorems use the closed non-zero-winding region; that the two coincide for simple polygons is not proved (Jordan curve theorem), only for signed crossing numbers within {-1,0,1}",
-        "C07_roundtrip_layouts_partial covers libraries whose cells all have layouts; abstract-only cells (outline on 32767/32767, ports on Drawing+Pin) are covered by C07_export_no_panic and by the correspondence run only",
+        "C07_roundtrip_layouts_partial covers libraries whose cells all have layouts; C07_roundtrip_abstract covers libraries that mix layout cells and abstract-only cells: an abstract-only cell comes back as a LAYOUT cell whose content is abstract_image (outline on 32767/32767, every port shape on the Drawing and on the Pin number, both with the port's net; blockages and the abstract of a cell that also has a layout are not written: inherent to the format mapping), and the layer table grows by the outline slot only",
+        "C07_roundtrip_abstract assumes outline_slot_okb: when the table already has a layer numbered 32767 WITHOUT purpose number 32767, that layer's Named/Other purposes are registered under their own numbers (the check of Layer::add_purpose, so true of every table built through the API)",
         "the importer side of the composition is builder-c06's model Raw/RawGds.v (any cfg with fx_contains and fx_pico true); GdsDepOrder through the C17 theorem on Order/DepOrderFixed.v",
         "exportable (the input space): i16 layer tables whose two maps agree and whose layer numbers are pairwise distinct; cell name = name of its layout/abstract, pairwise distinct cell names, nested hierarchy; coordinates and widths in i32; ASCII net names; Label purpose registered for named shapes; Manhattan paths with >= 2 points and no zero-length segment; simple polygons; a named polygon has a representable label location",
         "the export/import composition is observed at the gds21 data-structure level (to_gds / from_gds), as the property's observe_at says; no byte stream is written",
@@ -590,6 +673,29 @@ def run(chk, replay=None):
     chk.cov["exportable_cases"] = sum(1 for v, _ in results if v >= 0 and (v // 10) % 10 == 1)
     chk.cov["exportable_and_unambiguous"] = sum(1 for v, _ in results if v >= 0 and (v // 10) % 10 == 1 and (v // 100) % 10 == 1)
     chk.cov["exportable_ambiguous_not_judged"] = sum(1 for v, _ in results if v >= 0 and (v // 10) % 10 == 1 and (v // 100) % 10 == 0 and (v // 1000) % 10 == 1)
+    # (builder-c07a) abstract-only cells and the layer table after the round trip, judged on the implementation's output
+    acodes = evaluate_abstract(chk, cases, results)
+    nabs_cells = sum(sum(1 for cell in c["lib"]["cells"] if cell["abs"] and not cell["layout"]) for c, a in zip(cases, acodes) if a == 0)
+    chk.cov["abstract_oracle"] = {
+        "evaluated": sum(1 for a in acodes if a is not None),
+        "judged_with_abstract_only_cell": sum(1 for a in acodes if a == 0),
+        "abstract_only_cells_judged": nabs_cells,
+        "judged_table_only": sum(1 for a in acodes if a == 1),
+        "not_judged_outside_input_space_or_ambiguous": sum(1 for a in acodes if a == 10),
+        "fails": sum(1 for a in acodes if a == 2),
+        "judged_with_layer_32767_in_table": sum(1 for c, a in zip(cases, acodes) if a in (0, 1) and any(l["num"] == 32767 for l in c["lib"]["layers"])),
+        "rule": "c07_abstract_check (Raw/RawGdsAbstractCheck.v): every abstract-only cell is found by name in the re-imported library as a cell without abstract whose layout is, as content, abstract_image of the abstract; the re-imported layer table answers like table_after (the source table, grown by the outline slot iff an abstract-only cell was exported)"}
+    aviol = [(c, r, a) for c, (v, r), a in zip(cases, results, acodes) if a == 2]
+    main_viol_ids = {id(c) for c, (v, r) in zip(cases, results) if v >= 0 and v % 10 == 2}
+    aviol_only = [x for x in aviol if id(x[0]) not in main_viol_ids]
+    if aviol_only:
+        aviol_only.sort(key=lambda x: lib_size(x[0]))
+        c, r, a = aviol_only[0]
+        small = {k: v for k, v in c.items() if k != "probe"}
+        chk.violation("raw->GDSII->raw [abstract-image]: on %d of %d cases an abstract-only cell does not come back as abstract_image of its abstract, or the layer table is not table_after; smallest: %s -> impl %s"
+                      % (len(aviol_only), len(cases), json.dumps(small["lib"])[:900], json.dumps(r)[:900]),
+                      {"cases": [small] + [{k: v for k, v in x[0].items() if k != "probe"} for x in aviol_only[1:6]], "class": "abstract-image", "impl": r},
+                      suffix="-abstract-image")
     nl, nt = polygons_without_label_location(cases)
     chk.cov["named_simple_polygons_without_label_location"] = "%d of %d (export is an error by design: `exportable` demands a label location; not judged)" % (nl, nt)
     nshape = {}
